@@ -243,3 +243,37 @@ CLAIMED = {
 _PENDING = "check not built yet in this round (planned, see DESIGN.md section 3); not claimed until its rules run"
 
 NOT_APPLICABLE = {("C%02d" % i): _PENDING for i in range(1, 21) if ("C%02d" % i) not in CLAIMED}
+
+# clauses added after the second round of seeded changes (DESIGN.md 9.6); appended to the claim texts above
+_W = (" Rule W (spec/wrappers.json): each Python-facing wrapper of this property calls its native function exactly once and none of "
+      "its look-alike siblings, and every native parameter is built from exactly the wrapper parameter(s) of the same role.")
+_EXTRA = {
+    "C01": "Also: is_ephemeral has exactly its two specified paths (no positional test); the owned summary walks spends / "
+           "agg_sig_unsafe / create_coin completely (no iterator adaptor)." + _W,
+    "C02": "Also: no iteration of any entry loop skips process_single_spend; the owned summary lists every spend (C02.5); the amount "
+           "sanitiser admits only the canonical form (C02.6, shared with C11.2).",
+    "C03": "Also: validate_conditions branches on lock aggregates only through `before_X_absolute is Some` and `before_X_absolute <= "
+           "X_absolute`; is_ephemeral exact." + _W,
+    "C04": _W.strip(),
+    "C05": "Also: no Ok path of an entry point skips validate_conditions / validate_signature (C05.2)." + _W,
+    "C06": "Also: the strictness flags are tested only through contains(single flag) whose false side never rejects on its own, and "
+           "otherwise only added to flag sets; inside the loops of validate_conditions balances change only by exact checked addition.",
+    "C07": "Also: no iteration of either loop skips a spend; both paths pass the remaining budget to run_program, subtract every returned "
+           "cost and report max_cost - cost_left." + _W,
+    "C08": "Also: is_ephemeral is position independent (builders reverse the spend order)." + _W,
+    "C09": "Also: the fast paths subtract from their budget only costs returned by run_program (C09.4)." + _W,
+    "C10": "Also: the compressed builder never rolls the Allocator back while its incremental Serializer is live." + _W,
+    "C11": "Also: decode_number evaluates the sign bit once under !signed and twice under signed, and rejects when the two disagree.",
+    "C12": "Also: validate_merkle_proof has exactly one accepting path returning the lookup's own flag (lookup errors stay errors); the "
+           "lookup reports inclusion only by full 32-byte equality (Empty / Leaf / leaf pair / recurse on get_bit with depth+1)." + _W,
+    "C14": "Also: decoders touch the cursor only via position/get_ref/set_position (never std::io::Read::read); validation-skipping "
+           "primitives (*_unchecked, *_trusted) are called in parse bodies only under TRUSTED == true.",
+    "C15": _W.strip(),
+    "C16": "Also: is_all_zero inspects every byte (three align_to parts or one pass); all three secret-key addition forms call "
+           "blst_sk_add_n_check once, never branch on its result and return the written sum." + _W,
+    "C17": _W.strip(),
+    "C18": "Also: batch_insert reaches its bulk phase only after testing the leaf count against 1." + _W,
+    "C19": _W.strip(),
+}
+for _k, _v in _EXTRA.items():
+    CLAIMED[_k]["text"] = CLAIMED[_k]["text"].rstrip() + " " + _v.strip()
